@@ -93,4 +93,71 @@ theorem readMany_encMany (c : Codec α) (xs : List α) (r : Bytes)
     have ih' := ih (fun y hy => h y (List.mem_cons_of_mem _ hy))
     simp [readMany, encMany, List.append_assoc, hx, ih']
 
+-- ------------------------------------------------------------------------------------------------
+-- the Cursor byte source is the SliceReader on the unread bytes
+
+theorem cursor_rem_cases (c : Cursor) :
+    (c.pos < c.buf.length ∧ c.rem = c.buf.drop c.pos) ∨ (c.buf.length ≤ c.pos ∧ c.rem = []) := by
+  unfold Cursor.rem
+  by_cases h : c.pos < c.buf.length
+  · left; exact ⟨h, by rw [Nat.min_eq_left (Nat.le_of_lt h)]⟩
+  · right
+    have h' : c.buf.length ≤ c.pos := Nat.le_of_not_lt h
+    exact ⟨h', by rw [Nat.min_eq_right h']; simp⟩
+
+theorem cursor_readU8_eq (c : Cursor) : (c.readU8).unread = readU8 c.rem := by
+  unfold Cursor.readU8
+  rcases cursor_rem_cases c with ⟨hlt, hrem⟩ | ⟨hge, hrem⟩
+  · rw [hrem]
+    cases hd : c.buf.drop c.pos with
+    | nil =>
+      have := List.drop_eq_nil_iff.mp hd
+      omega
+    | cons b r =>
+      simp only [Res.unread, readU8, Cursor.rem]
+      have h1 : min (c.pos + 1) c.buf.length = c.pos + 1 := Nat.min_eq_left hlt
+      rw [h1, ← List.drop_drop, hd]
+      simp
+  · rw [hrem]; rfl
+
+theorem cursor_peekU8_eq (c : Cursor) : (c.peekU8).unread = peekU8 c.rem := by
+  unfold Cursor.peekU8
+  cases h : c.rem with
+  | nil => rfl
+  | cons b r => simp [Res.unread, peekU8, h]
+
+theorem cursor_readSlice_eq (n : Nat) (c : Cursor) : (c.readSlice n).unread = readSlice n c.rem := by
+  rw [readSlice_eq]
+  unfold Cursor.readSlice
+  rcases cursor_rem_cases c with ⟨hlt, hrem⟩ | ⟨hge, hrem⟩
+  · have hl : c.rem.length = c.buf.length - c.pos := by rw [hrem, List.length_drop]
+    by_cases hn : c.buf.length - c.pos < n
+    · simp [hn, hl, Res.unread]
+    · rw [if_neg hn, if_neg (by rw [hl]; exact hn)]
+      simp only [Res.unread, Cursor.rem]
+      have h1 : min c.pos c.buf.length = c.pos := Nat.min_eq_left (Nat.le_of_lt hlt)
+      have h2 : min (c.pos + n) c.buf.length = c.pos + n := Nat.min_eq_left (by omega)
+      rw [h1, h2, ← List.drop_drop]
+  · have hl : c.rem.length = 0 := by rw [hrem]; rfl
+    have h0 : c.buf.length - c.pos = 0 := by omega
+    by_cases hn : 0 < n
+    · simp [h0, hn, hl, Res.unread]
+    · have : n = 0 := by omega
+      subst this
+      simp only [h0, Nat.lt_irrefl, if_false, hl, Res.unread, Cursor.rem, hrem, Nat.add_zero, List.take_zero,
+        List.drop_zero]
+      rw [Nat.min_eq_right hge]; simp
+
+theorem cursor_hasMore_eq (c : Cursor) : c.hasMoreBytes = !c.rem.isEmpty := by
+  unfold Cursor.hasMoreBytes
+  rcases cursor_rem_cases c with ⟨hlt, hrem⟩ | ⟨hge, hrem⟩
+  · have : c.rem ≠ [] := by
+      rw [hrem]; intro h
+      have := List.drop_eq_nil_iff.mp h
+      omega
+    cases hr : c.rem with
+    | nil => exact absurd hr this
+    | cons b r => simp [hlt]
+  · simp [hrem, Nat.not_lt.mpr hge]
+
 end WinterProofs.C12L
